@@ -101,6 +101,14 @@ func predDiff(c Case) (r Result) {
 			return
 		}
 	}
+	if two.Mutated != "" && (c.Property == "C13" || c.Property == "C12") {
+		// asserted only under the reuse/concurrency properties (elsewhere it is merely counted)
+		r.Violation = "a value returned by Search changed after the compiled expression was used again"
+		r.Got = two.Mutated
+		return
+	} else if two.Mutated != "" {
+		r.class("returned-value-changed-later")
+	}
 	if ev.Ambiguous {
 		r.Discard = "ambiguous:" + ev.Why
 		r.Nontrivial = false
